@@ -12,8 +12,9 @@ Published rules implemented by `rule_check` (written from the rule text, not fro
 import itertools
 
 NAME = "doppelblock"
-STATUS = "model+differential"
-THEOREMS = []
+STATUS = "theorem"
+THEOREMS = ["Cspuz.C11.Doppelblock.program_iff_rules", "Cspuz.C11.Doppelblock.total"]
+LEAN_FILE = "C11_Doppelblock"
 LEAN_CMD = "puz_doppelblock"
 
 
